@@ -81,6 +81,10 @@ int main() {
     must_refuse("rhs string term \",,\"", [] { parser p(list, TERMS, NTERMS, rules(GOOD_RULES, item(",,") >= val(1))); (void)p; });
     must_refuse("rhs regex term with another pattern but the same display name", [] { parser p(list, TERMS, NTERMS, rules(GOOD_RULES, item(ident2) >= val(1))); (void)p; });
     must_refuse("rhs regex term whose pattern is a prefix of a declared pattern", [] { parser p(list, TERMS, NTERMS, rules(GOOD_RULES, item(ident3) >= val(1))); (void)p; });
+    // a typed term wrapping a regex term keeps the identity of what it wraps: a string term spelled like its display name is a different, undeclared symbol
+    must_refuse("string term \"ident\" when only a typed regex term named ident is declared", [] { static const typed_term tid(ident, to_i); parser p(list, terms('a', ',', tid), NTERMS, rules(list(item), item('a') >= val(1), item("ident") >= val(2))); (void)p; });
+    must_refuse("bare regex term named like a declared typed regex term with another pattern", [] { static const typed_term tid(ident, to_i); parser p(list, terms('a', ',', tid), NTERMS, rules(list(item), item('a') >= val(1), item(ident2) >= val(2))); (void)p; });
+    must_accept("typed regex term used through its own object", [] { static const typed_term tid(ident, to_i); parser p(list, terms('a', ',', tid), NTERMS, rules(list(item), item('a') >= val(1), item(tid) >= val(2))); (void)p; });
     must_refuse("rhs regex term when no regex term is declared", [] { parser p(list, terms('a', ','), NTERMS, rules(list(item), item('a') >= val(1), item(ident) >= val(3))); (void)p; });
     must_refuse("empty nonterminal name", [] { nterm<int> e(""); (void)e; });
     // declared symbols in unusual but legal places must still be accepted
